@@ -7,11 +7,14 @@ Local Open Scope Z_scope.
 Inductive observation :=
 | OPanic
 | OOut (class : Z) (s : ostate) (kind : Z) (same : bool).
+(* [same]: nothing that must be preserved was lost - for the error of a single step, the state carried by the
+   error is == a clone of the input state (PushState ==: stacks, capacities, output, inputs, limits);
+   otherwise (success, whole runs) every declared input still resolves to its value *)
 
 Definition dec_obs (t : tree) : option observation :=
   match t with
   | L [A (-1)] => Some OPanic
-  | L [A c; s; A k] => olet s := dec_ostate s in Some (OOut c s k false)
+  | L [A c; s; A k] => olet s := dec_ostate s in Some (OOut c s k true)
   | L [A c; s; A k; b] => olet s := dec_ostate s in olet b := tbool b in Some (OOut c s k b)
   | _ => None
   end.
@@ -69,7 +72,7 @@ Definition holds_c02 (mode : Z) (s : state) (o : observation) : bool :=
     match mode, c with
     | 1, 1 => same && state_matches s os && list_eqb Z.eqb (o_out os) [] && (Z.eqb k 1 || Z.eqb k 3)
     | 1, 2 => same && state_matches s os && list_eqb Z.eqb (o_out os) [] && Z.eqb k 2
-    | _, _ => true
+    | _, _ => same
     end
   end.
 
@@ -82,12 +85,13 @@ Definition holds_c03 (mode : Z) (s : state) (o : observation) : bool :=
     match c with 0 => true | 1 => Z.eqb mode 1 | 2 => Z.eqb k 2 | _ => false end
   end.
 
-Definition judge_with (holds : Z -> state -> observation -> bool) (t : tree) : option (list Z) :=
+Definition intact (o : observation) : bool := match o with OOut _ _ _ same => same | OPanic => true end.
+Definition judge_with (strict : bool) (holds : Z -> state -> observation -> bool) (t : tree) : option (list Z) :=
   match t with
   | L [L [A mode; _; s; extra]; o] =>
     olet s := dec_state s in olet o := dec_obs o in
     olet alts := alternatives mode s extra in
-    match first_match alts o with
+    match (if strict && negb (intact o) then None else first_match alts o) with
     | Some f => Some (0 :: out_of f)
     | None =>
       Some ((if holds mode s o then 1 else 2) :: match alts with f :: _ => out_of f | [] => [] end)
@@ -96,9 +100,9 @@ Definition judge_with (holds : Z -> state -> observation -> bool) (t : tree) : o
   end.
 
 (* C01: the property IS equality with the semantics *)
-Definition judge_c01 := judge_with (fun _ _ _ => false).
-Definition judge_c02 := judge_with holds_c02.
-Definition judge_c03 := judge_with holds_c03.
+Definition judge_c01 := judge_with true (fun _ _ _ => false).
+Definition judge_c02 := judge_with true holds_c02.
+Definition judge_c03 := judge_with false holds_c03.
 
 (* ---- display of the model's answer ---- *)
 Definition show_final (f : final) : list (list Z) :=
